@@ -164,47 +164,68 @@ type c17Registry struct {
 	infos []ModulePackageInfo
 }
 
-var c17VersionsCalls, c17SourceCalls int
-var c17Asked []versions.Version
+const c17MirrorHost = "mirror.example.net"
+
+var c17VersionsCalls [2]int
+var c17SourceCalls int
+var c17Asked [2][]versions.Version
+
+// c17Offers: the mirror host carries the same namespace/name/system but offers only the first
+// version of the list.
+func (r c17Registry) offers(pkgAddr regaddr.ModulePackage) (int, []ModulePackageInfo) {
+	if string(pkgAddr.Host) == c17MirrorHost {
+		return 1, r.infos[:1]
+	}
+	return 0, r.infos
+}
 
 func (r c17Registry) ModulePackageVersions(ctx context.Context, pkgAddr regaddr.ModulePackage) (ModulePackageVersionsResponse, error) {
-	c17VersionsCalls++
-	return ModulePackageVersionsResponse{Versions: r.infos}, nil
+	h, infos := r.offers(pkgAddr)
+	c17VersionsCalls[h]++
+	return ModulePackageVersionsResponse{Versions: infos}, nil
 }
 
 func (r c17Registry) ModulePackageSourceAddr(ctx context.Context, pkgAddr regaddr.ModulePackage, version versions.Version) (ModulePackageSourceAddrResponse, error) {
+	h, _ := r.offers(pkgAddr)
 	c17SourceCalls++
-	c17Asked = append(c17Asked, version)
+	c17Asked[h] = append(c17Asked[h], version)
 	return ModulePackageSourceAddrResponse{SourceAddr: c17Target(version)}, nil
 }
 
-// HarnessC17Builder: through the builder - two requests against the same registry package with
-// independently chosen allowed sets (the second is served from the version-list cache): each
-// resolves to the newest offered version its own set allows, the bundle records exactly those
-// versions with their own deprecation notes, an unsatisfiable request is an error.
+// HarnessC17Builder: through the builder - several requests against the same registry package
+// (and, with hosts=2, against a package of the same namespace/name/system on another host that
+// offers fewer versions) with independently chosen allowed sets (later ones are served from the
+// version-list cache): each resolves to the newest version its own package offers and its own
+// set allows, the bundle records exactly those versions with their own deprecation notes, an
+// unsatisfiable request is an error.
 func HarnessC17Builder() {
 	wReset(2, 0, 1)
-	c17VersionsCalls, c17SourceCalls, c17Asked = 0, 0, nil
+	c17VersionsCalls, c17SourceCalls, c17Asked = [2]int{}, 0, [2][]versions.Version{}
 	c17Small = true
 	infos := c17Offered(verif.Param("n", 2), false)
-	reg, _ := sourceaddrs.ParseRegistrySource(wRegPkg(0).String())
-	b, err := NewBuilder(wTarget, wFetcher{}, c17Registry{infos})
+	regs := []sourceaddrs.RegistrySource{}
+	r0, _ := sourceaddrs.ParseRegistrySource(wRegPkg(0).String())
+	r1, err1 := sourceaddrs.ParseRegistrySource(c17MirrorHost + "/ns/r0/sys")
+	verif.Assume(err1 == nil)
+	regs = append(regs, r0, r1)
+	registry := c17Registry{infos}
+	b, err := NewBuilder(wTarget, wFetcher{}, registry)
 	verif.Assume(err == nil)
 	ctx := wCtx{wTracer()}
 	nReq := verif.Param("requests", 2)
-	var wants []int
+	var wants [2][]int
 	for q := 0; q < nReq; q++ {
+		h := verif.Choose("req.host", verif.Param("hosts", 1))
+		_, offered := registry.offers(regs[h].Package())
 		set, has := c17Allowed()
-		best, found := c17Best(infos, has)
+		best, found := c17Best(offered, has)
 		if found {
-			want := infos[best].Version
+			want := offered[best].Version
 			verif.Known("KF-C17-zero-version", want.Major == 0 && want.Minor == 0 && want.Patch == 0)
 		}
-		v0 := c17VersionsCalls
-		diags := b.AddRegistrySource(ctx, reg, set, wFinder{wNode{0, 0}, q})
-		if q > 0 {
-			verif.Assert("C17-version-list-requested-once-per-package", c17VersionsCalls == v0)
-		}
+		v0 := c17VersionsCalls[h]
+		diags := b.AddRegistrySource(ctx, regs[h], set, wFinder{wNode{0, 0}, q})
+		verif.Assert("C17-version-list-requested-once-per-package", c17VersionsCalls[h] == 1 && (v0 == 0 || v0 == 1))
 		if !found {
 			verif.Reach("none-allowed")
 			verif.Assert("C17-error-when-no-offered-version-is-allowed", diags.HasErrors())
@@ -215,47 +236,51 @@ func HarnessC17Builder() {
 		if diags.HasErrors() {
 			return
 		}
-		wants = append(wants, best)
+		wants[h] = append(wants[h], best)
 	}
 	bundle, err := b.Close()
 	verif.Assert("close-succeeds", err == nil)
 	if err != nil {
 		return
 	}
-	vs := bundle.RegistryPackageVersions(wRegPkg(0))
-	for _, v := range vs {
-		ok := false
-		for _, w := range wants {
-			if v.Same(infos[w].Version) {
-				ok = true
-			}
-		}
-		verif.Assert("C17-only-selected-versions-recorded", ok)
-	}
-	for _, w := range wants {
-		want := infos[w].Version
-		ok := false
+	for h := 0; h < 2; h++ {
+		pkg := regs[h].Package()
+		_, offered := registry.offers(pkg)
+		vs := bundle.RegistryPackageVersions(pkg)
 		for _, v := range vs {
-			if v.Same(want) {
-				ok = true
+			ok := false
+			for _, w := range wants[h] {
+				if v.Same(offered[w].Version) {
+					ok = true
+				}
 			}
+			verif.Assert("C17-only-selected-versions-recorded", ok)
 		}
-		verif.Assert("C17-newest-allowed-version-recorded", ok)
-		dep := bundle.RegistryPackageVersionDeprecation(wRegPkg(0), want)
-		if infos[w].Deprecation == nil {
-			verif.Assert("C17-no-deprecation-invented", dep == nil)
-		} else {
-			verif.Assert("C17-deprecation-is-the-selected-versions", dep != nil && dep.Reason == infos[w].Deprecation.Reason && dep.Link == infos[w].Deprecation.Link)
+		for _, w := range wants[h] {
+			want := offered[w].Version
+			ok := false
+			for _, v := range vs {
+				if v.Same(want) {
+					ok = true
+				}
+			}
+			verif.Assert("C17-newest-allowed-version-recorded", ok)
+			dep := bundle.RegistryPackageVersionDeprecation(pkg, want)
+			if offered[w].Deprecation == nil {
+				verif.Assert("C17-no-deprecation-invented", dep == nil)
+			} else {
+				verif.Assert("C17-deprecation-is-the-selected-versions", dep != nil && dep.Reason == offered[w].Deprecation.Reason && dep.Link == offered[w].Deprecation.Link)
+			}
+			p1, e1 := bundle.LocalPathForRegistrySource(regs[h], want)
+			p2, e2 := bundle.LocalPathForRemoteSource(c17Target(want))
+			verif.Assert("C17-registry-source-resolves-to-the-named-address", e1 == nil && e2 == nil && p1 == p2)
 		}
-		p1, e1 := bundle.LocalPathForRegistrySource(reg, want)
-		p2, e2 := bundle.LocalPathForRemoteSource(c17Target(want))
-		verif.Assert("C17-registry-source-resolves-to-the-named-address", e1 == nil && e2 == nil && p1 == p2)
-	}
-	// each selected version's address was asked for exactly once
-	for i, a := range c17Asked {
-		for j, b2 := range c17Asked {
-			if i < j {
-				verif.Assert("C17-source-address-requested-once-per-version", !a.Same(b2))
+		// each selected version's address was asked for exactly once
+		for i, a := range c17Asked[h] {
+			for j, b2 := range c17Asked[h] {
+				if i < j {
+					verif.Assert("C17-source-address-requested-once-per-version", !a.Same(b2))
+				}
 			}
 		}
 	}
